@@ -637,6 +637,63 @@ func (d *Driver) stepTrustFlip() {
 	w.Res.Count("ops_trust_flip", 1)
 }
 
+// stepTamperedOrphan: a vertex that does not authenticate (or a forbidden one) reaches the node before its parent, then
+// the parent arrives and the orphan buffer is stepped: nothing but the honest parent may end up in the ledger.
+func (d *Driver) stepTamperedOrphan() {
+	w := d.W
+	r := w.R
+	n := d.randNode()
+	l, rr, wgt, ok := d.pickParents(n)
+	if !ok {
+		return
+	}
+	from := d.fundedUser()
+	to := d.randUser()
+	if from == to {
+		return
+	}
+	pt := w.NewTrx(from, to.Addr, spice.Melange{SupplementaryCurrency: uint64(1 + r.Intn(9))}, nil)
+	parent := ForgeVertex(w.Sealers[0], pt, l, rr, wgt, w.Now())
+	ct := w.NewTrx(from, to.Addr, spice.Melange{SupplementaryCurrency: uint64(1 + r.Intn(9))}, nil)
+	child := ForgeVertex(w.Sealers[1], ct, parent.Hash, parent.Hash, wgt+1, w.Now())
+	bad := *CloneVertex(&child)
+	kind := r.Intn(5)
+	switch kind {
+	case 0:
+		bad.Signature[r.Intn(len(bad.Signature))] ^= 1 << uint(r.Intn(8))
+	case 1:
+		bad.Transaction.Spice.Currency += 1 << 30
+	case 2:
+		bad.Hash[r.Intn(32)] ^= 0x20
+	case 3:
+		bad.Transaction.IssuerSignature[r.Intn(len(bad.Transaction.IssuerSignature))] ^= 1
+	default:
+		bad.Transaction.ReceiverAddress = w.Sealers[0].Addr
+	}
+	err := w.Deliver(n, &bad, fmt.Sprintf("tampered-orphan/kind%d (child first)", kind))
+	if err == nil {
+		w.Violate("C04", "accepted/tampered-orphan", fmt.Sprintf("node %s accepted a tampered vertex (kind %d) whose parent it did not know yet", n.Name, kind))
+	}
+	if perr := w.Deliver(n, &parent, "tampered-orphan/parent"); perr == nil {
+		d.noteSealed(&parent)
+		d.enqueue(n, &parent)
+	}
+	for i := 0; i < 4; i++ {
+		w.Retry(n)
+	}
+	w.Res.Count("ops_tampered_orphan", 1)
+	s := n.Prev
+	fp := Fingerprint(&bad)
+	if lv, ok := s.Live[bad.Hash]; ok && Fingerprint(&lv.V) == fp {
+		w.Violate("C04", "admitted/tampered-orphan-through-retry", fmt.Sprintf("node %s holds a tampered vertex (kind %d) that arrived before its parent and was replayed from the orphan buffer", n.Name, kind))
+	}
+	for _, pk := range s.Parked {
+		if Fingerprint(&pk.Vertex) == fp {
+			w.Violate("C04", "parked/tampered-orphan", fmt.Sprintf("node %s parked a tampered vertex (kind %d) for replay", n.Name, kind))
+		}
+	}
+}
+
 func (d *Driver) stepTrust() {
 	r := d.W.R
 	n := d.randNode()
@@ -750,7 +807,11 @@ func (d *Driver) runBody(fund bool) {
 		case x < p.PForge+p.PReplay:
 			d.stepReplay()
 		case x < p.PForge+p.PReplay+p.PRules:
-			d.stepRules()
+			if r.Intn(4) == 0 {
+				d.stepTamperedOrphan()
+			} else {
+				d.stepRules()
+			}
 		case x < p.PForge+p.PReplay+p.PRules+p.PTrust:
 			if r.Intn(3) == 0 {
 				d.stepTrustFlip()
